@@ -305,6 +305,27 @@ func (g *Gen) try(k string) (Op, bool) {
 			o = Op{Proc: "write", H: f.sym, Off: 0, Cnt: 50, Stable: 0, Data: DataSpec{Pat: true, Len: 7, Seed: 1}} // count mismatch
 		}
 		g.queue = append(g.queue, Op{Proc: "commit", H: f.sym})
+	case "selfmove": // a directory renamed into itself onto an existing name, or onto "." / ".." (must be refused)
+		var d *gobj
+		for _, x := range g.live {
+			if x.kind == 2 && x != g.root && len(x.kids) > 0 {
+				d = x
+				break
+			}
+		}
+		if d == nil {
+			return o, false
+		}
+		n2, _ := g.existingName(d)
+		switch g.rng.Intn(4) {
+		case 0:
+			n2 = "."
+		case 1:
+			n2 = ".."
+		}
+		o = Op{Proc: "rename", H: d.parent.sym, Name: d.name, H2: d.sym, Name2: n2}
+	case "hostile": // arbitrary argument values: the only question is whether the server survives
+		o = g.hostile()
 	case "giveback":
 		if g.filler == nil || g.filler.dead || !g.fillDone || g.filler.size < 4*4096 {
 			return o, false
@@ -663,4 +684,106 @@ func (g *Gen) Observe(o Op, r Reply) {
 		p.target.parent = p.dst
 		p.target.name = o.Name2
 	}
+}
+
+var hostileU64 = []uint64{0, 1, 127, 128, 129, 255, 256, 4095, 4096, 4097, 1<<31 - 1, 1 << 31, 1<<32 - 1, 1 << 32, 1<<32 + 1,
+	1<<63 - 1, 1 << 63, 1<<64 - 1, 1<<64 - 2, 1<<64 - 10, 1<<64 - 4096, 1<<64 - 4097, 1073774592, 1073774591, 1073774593}
+
+func (g *Gen) hostileHandle() string {
+	switch g.rng.Intn(8) {
+	case 0:
+		return g.pick(0).sym
+	case 1:
+		if len(g.dead) > 0 {
+			return g.dead[g.rng.Intn(len(g.dead))].sym
+		}
+	case 2: // any length 0..65, random content
+		b := make([]byte, g.rng.Intn(66))
+		g.rng.Read(b)
+		return "x" + hexs(b)
+	case 3: // right length, hostile inode number / generation
+		b := make([]byte, 16)
+		v := hostileU64[g.rng.Intn(len(hostileU64))]
+		for i := 0; i < 8; i++ {
+			b[i] = byte(v >> (8 * uint(i)))
+		}
+		b[8] = byte(g.rng.Intn(4))
+		return "x" + hexs(b)
+	case 4: // inode numbers around the table size
+		b := make([]byte, 16)
+		v := uint64(32768 - 2 + g.rng.Intn(5))
+		for i := 0; i < 8; i++ {
+			b[i] = byte(v >> (8 * uint(i)))
+		}
+		b[8] = 1
+		return "x" + hexs(b)
+	}
+	return g.pick(0).sym
+}
+
+func (g *Gen) hostileName() string {
+	switch g.rng.Intn(9) {
+	case 0:
+		return "."
+	case 1:
+		return ".."
+	case 2:
+		return strings.Repeat("n", g.rng.Intn(300))
+	case 3:
+		return strings.Repeat("q", 110+g.rng.Intn(6))
+	case 4:
+		d := g.pick(2)
+		if n, _ := g.existingName(d); n != "" {
+			return n
+		}
+	}
+	return fmt.Sprintf("h%d", g.rng.Intn(6))
+}
+
+func (g *Gen) hostile() Op {
+	u := func() uint64 {
+		if g.rng.Intn(3) == 0 {
+			return uint64(g.rng.Intn(10000))
+		}
+		return hostileU64[g.rng.Intn(len(hostileU64))]
+	}
+	h := g.hostileHandle()
+	switch g.rng.Intn(16) {
+	case 0:
+		return Op{Proc: "getattr", H: h}
+	case 1:
+		return Op{Proc: "setattr", H: h, HasSize: g.rng.Intn(2) == 0, Size: u(), At: TimeSpec{How: g.rng.Intn(3)}, Mt: TimeSpec{How: g.rng.Intn(3)}}
+	case 2:
+		return Op{Proc: "lookup", H: h, Name: g.hostileName()}
+	case 3:
+		cnt := u()
+		if cnt > 1<<20 {
+			cnt = uint64(g.rng.Intn(1 << 20)) // open finding F28: READ builds count bytes whatever rtmax says
+		}
+		return Op{Proc: "read", H: h, Off: u(), Cnt: cnt}
+	case 4, 5:
+		n := uint64(g.rng.Intn(9000))
+		cnt := n
+		if g.rng.Intn(3) == 0 {
+			cnt = u() & 0xffffffff // count disagrees with the data supplied
+		}
+		return Op{Proc: "write", H: h, Off: u(), Cnt: cnt, Stable: uint32(g.rng.Intn(3)), Data: DataSpec{Pat: true, Len: n, Seed: 9}}
+	case 6:
+		return Op{Proc: []string{"create", "mkdir"}[g.rng.Intn(2)], H: h, Name: g.hostileName(), Mode: uint32(g.rng.Intn(3))}
+	case 7:
+		return Op{Proc: "symlink", H: h, Name: g.hostileName(), Data: DataSpec{Pat: true, Len: uint64(g.rng.Intn(5000)), Seed: 3}}
+	case 8:
+		return Op{Proc: []string{"remove", "rmdir"}[g.rng.Intn(2)], H: h, Name: g.hostileName()}
+	case 9, 10:
+		return Op{Proc: "rename", H: h, Name: g.hostileName(), H2: g.hostileHandle(), Name2: g.hostileName()}
+	case 11:
+		return Op{Proc: "readdir", H: h, Cookie: u(), Count: u() & 0xffffffff}
+	case 12:
+		return Op{Proc: "readdirplus", H: h, Cookie: u(), Dircount: u() & 0xffffffff, Maxcount: u() & 0xffffffff}
+	case 13:
+		return Op{Proc: "commit", H: h, Off: u(), Cnt: u() & 0xffffffff}
+	case 14:
+		return Op{Proc: []string{"access", "readlink", "fsinfo", "pathconf"}[g.rng.Intn(4)], H: h}
+	}
+	return Op{Proc: []string{"mknod", "link", "fsstat"}[g.rng.Intn(3)], H: h}
 }
